@@ -10,7 +10,7 @@ CHECKS = {
 }
 CHECKS.update({
  "C09": ("exploration", "seeded search over histories, flag-twin (generated flags vs all-cached) + fresh-twin differential oracles",
-         "Runs each sampled history in two real worlds at once (the generated cached/uncached assignment with flag flips as steps, and every cells cached) and requires equal answers, empty uncached cells and an execution per top-level call; the flagged world is also checked by the fresh-twin.",
+         "Runs each sampled history in two real worlds at once (the generated cached/uncached assignment with flag flips as steps, and every cells cached) and requires equal answers, empty uncached cells and an execution per top-level call; the flagged world is also checked by the fresh-twin; every run ends with an uncached cells called with unhashable (list) arguments.",
          "Trusted: real modelx in both worlds; histories contain no value assignments; generator exclusions as for C02.", "6/C09"),
  "C11": ("fault_enumeration", "seeded histories with hostile edits (rejection reason x operation) + before==after description + fresh-twin",
          "At seeded points the editor draws from the full list of invalid operations applicable to the current state; every operation that raises is followed by a comparison of the public description (definitions and inputs) before and after, and values are re-checked against the fresh twin; accepted edits are checked for acyclic bases, a C3 order equal to CPython's and valid names.",
@@ -36,7 +36,7 @@ CHECKS.update({
          "No fault or schedule dimension in the statement: fault-free configuration of the persistence simulator. Models come from seeded edit histories; write/zip -> read -> write chains; description, answers, file listings compared.",
          "Trusted: public description; == on values. Corpus excludes two known findings (mode of literal references, inputs of derived cells).", "6/C04"),
  "C05": ("fault_enumeration", "enumeration of every probe point of a query x exception kinds (probe fault injection), evaluator + retry as oracle",
-         "For each sampled (model, query) every probe point of the fault-free evaluation is taken as failure point for a seeded subset of exception kinds, plus forced None returns and two-fault sequences with formula-level handlers; outcome, get_error, held maps, retry values and retry execution log are compared with the evaluator.",
+         "For each sampled (model, query) every probe point of the fault-free evaluation is taken as failure point for a seeded subset of exception kinds, plus forced None returns and two-fault sequences with formula-level handlers; outcome, get_error, held maps, retry values and retry execution log are compared with the evaluator. One run in eight drives recursive chains (self, mutual, through uncached cells) against a configured recursion limit instead: shorter chains evaluate, a raised depth error leaves nothing of the failing chain held, later requests succeed.",
          "Exhaustive per sampled scenario only. Trusted: evaluator (validated by C01).", "6/C05"),
  "C06": ("exploration", "seeded value-edit histories, evaluator's dependency relation as exact oracle, recalculation option toggled",
          "After every assignment/clear the held map and is_input of every cells must equal the evaluator's (edit of x removes exactly x's transitive dependents); evaluations must not re-execute kept values; with recalculation on the discarded leaves are recomputed at once.",
@@ -48,10 +48,10 @@ CHECKS.update({
          "After every step preds/succs/precedents of every held element and the node and edge sets of model.tracegraph are compared with the evaluator's call relation (pass-through for uncached cells), static global-name analysis and attribute reads.",
          "Isolated object nodes of uncached cells are tolerated; references read inside uncached callees may appear in precedents. Static spaces.", "6/C08"),
  "C10": ("exploration", "seeded placement histories over mode x target x depth, position-rule oracle by identity, dynamic trees walked",
-         "After every accepted edit every defined/derived object reference is compared by identity with the rule for the placements the statement covers, refmode must be preserved, and for an ItemSpace of every parametrised space the whole dynamic tree is walked.",
+         "After every accepted edit every defined/derived object reference is compared by identity with the rule for the placements the statement covers, refmode must be preserved, and for an ItemSpace of every parametrised space the whole dynamic tree is walked; half of the runs end with a save (directory or zip) and load, and the loaded model is judged by the same rule.",
          "Targets that are ancestors/siblings in the definer's top-level tree or descendants under static derivation are generated but not judged.", "6/C10"),
  "C14": ("fault_enumeration", "fs-shim fault injection at mutating file-system calls of saves (seeded and exhaustive per save), disk model as oracle",
-         "Sequences of saves to one path with edits, loads and restarts; faults: fail-before (ENOSPC/EIO/EACCES), torn write, fail-on-close, EXDEV, transient PermissionError with virtual sleep; a fifth of the runs enumerate every mutating call of one save; loads are failed by corruption at rest. After every attempt the latest complete generation must load from the path or _BAK1, generations be ordered, zip destinations complete, registry/flags/temp files clean, and a fresh save+load round-trip.",
+         "Sequences of saves to one path with edits, loads and restarts; faults: fail-before (ENOSPC/EIO/EACCES), torn write, fail-on-close, EXDEV, transient PermissionError with virtual sleep, a reference value whose pickling / unpickling raises on command; a fifth of the runs enumerate every mutating call of one save; loads are failed by corruption at rest. After every attempt the latest complete generation must load from the path or _BAK1, generations be ordered, zip destinations complete, registry/flags/temp files clean, and a fresh save+load round-trip.",
          "Error-type interruptions only (no kill -9). Real zipfile/pickle/json on tmpfs; the shim decides which calls fail.", "6/C14"),
  "C16": ("exploration", "seeded DAGs x target sets x step sizes, plan-twin (evaluator + probe execution log)",
          "No fault dimension in the statement: generate_actions/execute_actions are compared with direct evaluation by the evaluator: held map untouched by planning, each needed element in exactly one calc block after its callees, targets hold direct values, nothing else left, nothing executed twice.",
